@@ -58,10 +58,20 @@
 //!      the history; the sync runner meets an empty-but-open feed). The system's `SnapUpdates`
 //!      (snapshot + drained updates) is checked by S1-S4 against the stepped twin and a replica
 //!      built from it must end in the engine's final state (R1/R2 at the end of the stream).
+//!   5. builder layer: the system layer's histories through the real `SystemBuilder::new(SystemArgs { .. })
+//!      .engine_feed_mode(..).audit_mode(AuditMode::Enabled).trading_state(..).build()` followed by `init()` —
+//!      the configuration path a user of the library takes (the builder makes engine state and engine itself:
+//!      every exchange without execution link, audit sequence 0). A system configured with auditing enabled
+//!      that hands out no audit stream is a violation of S1 (no record for any event).
+//!   6. long-run layer: per world (quiet world 0; an active world whose sequence starts at 2^32-40) and
+//!      pattern one deterministic history of 320 / 1000 events cycling through the alphabet: the whole
+//!      history through everything layer 1 does (canonical async schedules) and the system layer, and every
+//!      shorter length 1..L through both runners (S1-S4) — count-dependent loss / repetition / renumbering
+//!      of records is out of reach of histories of length <= 5.
 //!   self-tests: determinism (same history twice), negative control (a strategy that changes engine
 //!      state inside `on_disconnect` must be reported) — failing either is exit 2, not a verdict.
 
-use super::common::{EState, ScriptClock, ScriptRisk, ScriptTx, TxMode, spot, strategy_id, t_plus};
+use super::common::{EState, ScriptClock, ScriptRisk, ScriptTx, TxMode, spot, strategy_id, t_plus, t_plus_ms};
 use crate::core::{Ctx, Distinct, Outcome, Samples};
 use crate::explore::env::{flag_waker, paused_rt, poll_quiesce};
 use barter::{
@@ -89,9 +99,10 @@ use barter::{
         on_disconnect::OnDisconnectStrategy,
         on_trading_disabled::OnTradingDisabled,
     },
+    shutdown::SyncShutdown,
     system::{
         System,
-        builder::{AuditMode, EngineFeedMode, SystemBuild},
+        builder::{AuditMode, EngineFeedMode, SystemArgs, SystemBuild, SystemBuilder},
     },
 };
 use barter_data::{
@@ -144,6 +155,9 @@ type Audit = EngineAudit<Event, EngineOutput<u32, ExchangeId>>;
 type Tick = AuditTick<Audit, EngineContext>;
 type SnapTick = AuditTick<EState, EngineContext>;
 type Eng = Engine<ScriptClock, EState, MultiExchangeTxMap<ScriptTx>, Strat, ScriptRisk>;
+/// the engine type `SystemBuilder::build` produces (real `UnboundedTx` execution links)
+type EngB = Engine<ScriptClock, EState, MultiExchangeTxMap, Strat, ScriptRisk>;
+type Mkt = MarketStreamEvent<InstrumentIndex, DataKind>;
 type Replica = StateReplicaManager<EState, std::vec::IntoIter<Tick>>;
 type Viol = (String, String);
 
@@ -336,6 +350,9 @@ pub struct World {
     tpl: [Tpl; 2],
 }
 
+/// index (into `worlds()`) of the world used by the long-run layer next to world 0
+const LONG_WORLD: usize = 7;
+
 fn worlds() -> Vec<WorldSpec> {
     let h = Some(TxMode::Healthy);
     vec![
@@ -347,6 +364,8 @@ fn worlds() -> Vec<WorldSpec> {
         // thorough tier only (appended so that world indices of replay artefacts stay stable)
         WorldSpec { name: "active/links=ok,ok/trading=on/risk-refuses-cancels/seq0=0".into(), strat: StratKind::Active, links: [h, h], trading_enabled: true, seq0: 0, risk_refuses_cancels: true },
         WorldSpec { name: "active/links=unhealthy,terminated/trading=on/seq0=1000000".into(), strat: StratKind::Active, links: [Some(TxMode::Unhealthy), Some(TxMode::Closed)], trading_enabled: true, seq0: 1_000_000, risk_refuses_cancels: false },
+        // long-run layer only: the sequence numbers of a run of >= 41 events cross 2^32
+        WorldSpec { name: "active/links=ok,ok/trading=on/seq0=2^32-40".into(), strat: StratKind::Active, links: [h, h], trading_enabled: true, seq0: (1u64 << 32) - 40, risk_refuses_cancels: false },
     ]
 }
 
@@ -409,23 +428,72 @@ impl World {
         self.engine_from(self.state0.clone(), [false, false], 0, self.spec.seq0)
     }
 
-    /// A real engine rebuilt around a given engine state / strategy memory (joint-state BFS).
-    fn engine_from(&self, state: EState, issued: [bool; 2], close_n: u32, seq: u64) -> Eng {
-        let txs = MultiExchangeTxMap::from_iter(
-            self.ex.iter().zip(self.spec.links.iter()).map(|(e, m)| (*e, m.map(ScriptTx::new))),
-        );
-        let strat = Strat {
+    fn strat(&self, issued: [bool; 2], close_n: u32) -> Strat {
+        Strat {
             kind: self.spec.strat,
             id: strategy_id(),
             tpl: self.tpl,
             issued: [Cell::new(issued[0]), Cell::new(issued[1])],
             close_n: Cell::new(close_n),
             disabled_calls: Cell::new(0),
-        };
-        let risk = ScriptRisk { refuse_opens: false, refuse_cancels: self.spec.risk_refuses_cancels };
-        let mut engine = Engine::new(ScriptClock::default(), state, txs, strat, risk);
+        }
+    }
+
+    fn risk(&self) -> ScriptRisk {
+        ScriptRisk { refuse_opens: false, refuse_cancels: self.spec.risk_refuses_cancels }
+    }
+
+    /// A real engine rebuilt around a given engine state / strategy memory (joint-state BFS).
+    fn engine_from(&self, state: EState, issued: [bool; 2], close_n: u32, seq: u64) -> Eng {
+        let txs = MultiExchangeTxMap::from_iter(
+            self.ex.iter().zip(self.spec.links.iter()).map(|(e, m)| (*e, m.map(ScriptTx::new))),
+        );
+        let mut engine = Engine::new(ScriptClock::default(), state, txs, self.strat(issued, close_n), self.risk());
         engine.meta.sequence = Sequence(seq);
         engine
+    }
+
+    /// The system the real `SystemBuilder` makes of this world: `SystemArgs` (the world's instruments, clock,
+    /// strategy, risk manager, no execution configuration => every exchange tracked without link, an empty
+    /// market stream) -> `.engine_feed_mode(..).audit_mode(Enabled).trading_state(..).build()`. The builder
+    /// creates the engine state and the engine itself (`Engine::new` => audit sequence 0), so the world's
+    /// `links` and `seq0` do not apply here.
+    fn built_system(&self, mode: EngineFeedMode) -> SystemBuild<EngB, Event, futures::stream::Empty<Mkt>> {
+        let args = SystemArgs::new(
+            &self.instruments,
+            vec![],
+            ScriptClock::default(),
+            self.strat([false, false], 0),
+            self.risk(),
+            futures::stream::empty::<Mkt>(),
+            DefaultGlobalData,
+            DefaultInstrumentMarketData::default,
+        );
+        let built = SystemBuilder::new(args)
+            .engine_feed_mode(mode)
+            .audit_mode(AuditMode::Enabled)
+            .trading_state(if self.spec.trading_enabled { TradingState::Enabled } else { TradingState::Disabled })
+            .build::<Event, DefaultInstrumentMarketData>();
+        match built {
+            Ok(b) => b,
+            Err(e) => {
+                eprintln!("MACHINERY: C10 builder layer: SystemBuilder::build failed without execution configuration: {e:?}");
+                std::process::exit(2);
+            }
+        }
+    }
+}
+
+/// What the layers need from an engine, whatever its execution-link type.
+trait EngLike: Processor<Event, Audit = Audit> + Auditor<Audit, Snapshot = EState, Context = EngineContext> {
+    fn st(&self) -> &EState;
+}
+impl<T> EngLike for Engine<ScriptClock, EState, MultiExchangeTxMap<T>, Strat, ScriptRisk>
+where
+    Self: Processor<Event, Audit = Audit> + Auditor<Audit, Snapshot = EState, Context = EngineContext>,
+{
+    fn st(&self) -> &EState {
+        &self.state
     }
 }
 
@@ -445,7 +513,7 @@ pub enum Sym {
     AcctReconnecting(u8),
     /// 0: usdt@ex0 1000 at t1, 1: usdt@ex0 900 at t2, 2: btc@ex1 5 at t1
     Balance(u8),
-    /// order report Open: `late=false` => (t1, filled 0), `late=true` => (t2, filled 1) — for B
+    /// order report Open: `late=false` => (t1, filled 0), `late=true` => (t1 + 500 ms, filled 1) — for B
     /// (quantity 1) the late report has nothing left to fill
     OrdOpen { o: u8, late: bool },
     /// terminal order report: 0 FullyFilled, 1 Cancelled(t3), 2 OpenFailed
@@ -628,8 +696,11 @@ impl World {
             }
             Sym::OrdOpen { o, late } => {
                 let t = &self.tpl[o as usize];
-                let (time, filled) = if late { (2, dec!(1)) } else { (1, dec!(0)) };
-                let mut order = t.report(OrderState::active(Open { id: t.oid(), time_exchange: t_plus(time), filled_quantity: filled }));
+                // The late report is stamped half a second after the early one: the two fall into the same
+                // second, so a guard that compares exchange times at a coarser resolution than the
+                // timestamps carry sees a tie where there is an order (older / newer by a sub-second step).
+                let (time, filled) = if late { (t_plus_ms(1500), dec!(1)) } else { (t_plus(1), dec!(0)) };
+                let mut order = t.report(OrderState::active(Open { id: t.oid(), time_exchange: time, filled_quantity: filled }));
                 // The early report of order A carries a price that differs from the requested one (a
                 // venue may confirm an order at other terms than requested - price improvement, rounding
                 // to the tick size): the statement quantifies over all account items.
@@ -747,25 +818,28 @@ struct Twin {
 }
 
 fn run_twin(w: &World, events: &[Event]) -> Twin {
-    let mut e = w.engine();
-    let snapshot = <Eng as Auditor<Audit>>::audit_snapshot(&mut e);
+    run_twin_on(w.engine(), events)
+}
+
+fn run_twin_on<E: EngLike>(mut e: E, events: &[Event]) -> Twin {
+    let snapshot = <E as Auditor<Audit>>::audit_snapshot(&mut e);
     let mut ticks = Vec::with_capacity(events.len() + 1);
     let mut states = Vec::with_capacity(events.len() + 2);
-    states.push(e.state.clone());
+    states.push(e.st().clone());
     let mut ended = false;
     for ev in events {
         let t: Tick = process_with_audit(&mut e, ev.clone());
         let fin = is_final_kind(&t);
         ticks.push(t);
-        states.push(e.state.clone());
+        states.push(e.st().clone());
         if fin {
             ended = true;
             break;
         }
     }
     if !ended {
-        ticks.push(<Eng as Auditor<Audit>>::audit(&mut e, FeedEnded));
-        states.push(e.state.clone());
+        ticks.push(<E as Auditor<Audit>>::audit(&mut e, FeedEnded));
+        states.push(e.st().clone());
     }
     Twin { snapshot, ticks, states }
 }
@@ -848,7 +922,7 @@ fn run_async(w: &World, events: &[Event], sch: Schedule) -> RunObs {
                         feed_tx = None;
                     }
                     poll(&mut completed);
-                } else if sch.gaps & (1 << i) != 0 {
+                } else if sch.gaps & (1u32 << (i % 32)) != 0 {
                     poll(&mut completed);
                 }
             }
@@ -876,7 +950,8 @@ fn all_schedules(n: usize) -> Vec<Schedule> {
 }
 
 fn canonical_schedules(n: usize) -> Vec<Schedule> {
-    let all = if n >= 2 { (1u32 << (n - 1)) - 1 } else { 0 };
+    // (long histories: bit i % 32 stands for gap i, so all-ones = a poll after every event)
+    let all = if n >= 33 { u32::MAX } else if n >= 2 { (1u32 << (n - 1)) - 1 } else { 0 };
     vec![
         Schedule { gaps: 0, poll_first: false, close_late: false }, // everything queued, feed closed, one poll
         Schedule { gaps: all, poll_first: true, close_late: true }, // one event per poll, close on its own
@@ -1141,6 +1216,10 @@ struct Counters {
     end_fatal: u64,
     algo_orders: u64,
     system_runs: u64,
+    builder_runs: u64,
+    long_histories: u64,
+    long_prefix_lengths: u64,
+    long_max_len: u64,
     /// nanoseconds per phase (twin, sync, async, bookkeeping+hash, replica, faults); only printed with C10_PROFILE=1
     ns: [u64; 6],
 }
@@ -1439,6 +1518,10 @@ fn add(a: &mut Counters, b: &Counters) {
     a.end_fatal += b.end_fatal;
     a.algo_orders += b.algo_orders;
     a.system_runs += b.system_runs;
+    a.builder_runs += b.builder_runs;
+    a.long_histories += b.long_histories;
+    a.long_prefix_lengths += b.long_prefix_lengths;
+    a.long_max_len = a.long_max_len.max(b.long_max_len);
     for i in 0..a.ns.len() {
         a.ns[i] += b.ns[i];
     }
@@ -1571,97 +1654,138 @@ thread_local! {
     static SYS_RT: tokio::runtime::Runtime = tokio::runtime::Builder::new_current_thread().enable_time().build().expect("tokio runtime");
 }
 
-fn feed_mode_name(m: &EngineFeedMode) -> &'static str {
-    match m {
-        EngineFeedMode::Iterator => "system-iterator",
-        EngineFeedMode::Stream => "system-stream",
+/// Where the `SystemBuild` comes from.
+#[derive(Debug, Clone, Copy, PartialEq, Eq)]
+pub enum Origin {
+    /// `SystemBuild::new(<the world's scripted engine>, ..)`
+    New,
+    /// `SystemBuilder::new(SystemArgs { .. }).engine_feed_mode(..).audit_mode(Enabled).build()` — the
+    /// builder makes the engine (see `World::built_system`)
+    Builder,
+}
+
+fn feed_mode_name(o: Origin, m: &EngineFeedMode) -> &'static str {
+    match (o, m) {
+        (Origin::New, EngineFeedMode::Iterator) => "system-iterator",
+        (Origin::New, EngineFeedMode::Stream) => "system-stream",
+        (Origin::Builder, EngineFeedMode::Iterator) => "builder-iterator",
+        (Origin::Builder, EngineFeedMode::Stream) => "builder-stream",
     }
 }
 
-/// One history through `SystemBuild::new(engine, ..).init()` with auditing enabled: the events are sent
-/// on the system's own `feed_tx` (one FIFO => the engine's input order is the history), the run is
-/// ended as `end` says, the engine is joined and the audit `SnapUpdates` drained.
-/// `Err(text)` = the engine task did not return an engine (it panicked).
-fn run_system(w: &World, events: &[Event], mode: EngineFeedMode, end: SysEnd) -> Result<RunObs, String> {
-    type Mkt = MarketStreamEvent<InstrumentIndex, DataKind>;
+/// One history through `<SystemBuild>.init()` with auditing enabled: the events are sent on the system's
+/// own `feed_tx` (one FIFO => the engine's input order is the history), the run is ended as `end` says,
+/// the engine is joined and the audit `SnapUpdates` drained.
+/// `Err(text)` = no audit stream, or the engine task did not return an engine (it panicked).
+fn run_system(w: &World, events: &[Event], mode: EngineFeedMode, end: SysEnd, origin: Origin) -> Result<RunObs, String> {
     SYS_RT.with(|rt| {
         rt.block_on(async {
-            let engine = w.engine();
-            let state_before = engine.state.clone();
-            let build: SystemBuild<Eng, Event, futures::stream::Empty<Mkt>> = SystemBuild::new(
-                engine,
-                mode,
-                AuditMode::Enabled,
-                futures::stream::empty::<Mkt>(),
-                Channel::new(),
-                ExecutionBuildFutures { mock_exchange_run_futures: vec![], execution_init_futures: vec![] },
-            );
-            let mut system: System<Eng, Event> = match build.init().await {
-                Ok(s) => s,
-                Err(e) => {
-                    eprintln!("MACHINERY: C10 system layer: SystemBuild::init failed without execution components: {e:?}");
-                    std::process::exit(2);
+            match origin {
+                Origin::New => {
+                    let build: SystemBuild<Eng, Event, futures::stream::Empty<Mkt>> = SystemBuild::new(
+                        w.engine(),
+                        mode,
+                        AuditMode::Enabled,
+                        futures::stream::empty::<Mkt>(),
+                        Channel::new(),
+                        ExecutionBuildFutures { mock_exchange_run_futures: vec![], execution_init_futures: vec![] },
+                    );
+                    drive_system(build, events, end).await
                 }
-            };
-            let Some(audit) = system.take_audit() else {
-                return Err("AuditMode::Enabled but the system has no audit snapshot + updates".to_string());
-            };
-            for ev in events {
-                // a send fails only if the runner has already ended (history with Shutdown / fatal error)
-                let _ = Tx::send(&system.feed_tx, ev.clone());
+                Origin::Builder => drive_system(w.built_system(mode), events, end).await,
             }
-            let joined = async {
-                match end {
-                    SysEnd::FeedClosed => {
-                        let System { engine, handles, feed_tx, audit: _ } = system;
-                        drop(feed_tx);
-                        let r = engine.await;
-                        handles.abort();
-                        r.map_err(|e| format!("{e:?}"))
-                    }
-                    SysEnd::Shutdown => system.shutdown().await.map_err(|e| format!("{e:?}")),
-                    SysEnd::ShutdownAfterBacktest => system.shutdown_after_backtest().await.map_err(|e| format!("{e:?}")),
-                }
-            };
-            let (engine, _ret) = match tokio::time::timeout(std::time::Duration::from_secs(600), joined).await {
-                Ok(r) => r?,
-                Err(_) => {
-                    eprintln!("MACHINERY: C10 system layer: engine task not finished 600 s after the feed was closed");
-                    std::process::exit(2);
-                }
-            };
-            let mut rx = audit.updates;
-            let ticks = drain(&mut rx);
-            Ok(RunObs { snapshot: audit.snapshot, state_before, ticks, final_state: engine.state.clone(), completed: true })
         })
     })
 }
 
+const NO_AUDIT: &str = "no audit stream";
+
+async fn drive_system<E>(build: SystemBuild<E, Event, futures::stream::Empty<Mkt>>, events: &[Event], end: SysEnd) -> Result<RunObs, String>
+where
+    E: EngLike + SyncShutdown + Send + 'static,
+{
+    let state_before = build.engine.st().clone();
+    let mut system: System<E, Event> = match build.init().await {
+        Ok(s) => s,
+        Err(e) => {
+            eprintln!("MACHINERY: C10 system layer: SystemBuild::init failed without execution components: {e:?}");
+            std::process::exit(2);
+        }
+    };
+    let Some(audit) = system.take_audit() else {
+        // nothing is left running: end the engine task before reporting
+        let System { engine, handles, feed_tx, audit: _ } = system;
+        drop(feed_tx);
+        let _ = engine.await;
+        handles.abort();
+        return Err(format!("{NO_AUDIT}: AuditMode::Enabled but System::take_audit() is None"));
+    };
+    for ev in events {
+        // a send fails only if the runner has already ended (history with Shutdown / fatal error)
+        let _ = Tx::send(&system.feed_tx, ev.clone());
+    }
+    let joined = async {
+        match end {
+            SysEnd::FeedClosed => {
+                let System { engine, handles, feed_tx, audit: _ } = system;
+                drop(feed_tx);
+                let r = engine.await;
+                handles.abort();
+                r.map_err(|e| format!("{e:?}"))
+            }
+            SysEnd::Shutdown => system.shutdown().await.map_err(|e| format!("{e:?}")),
+            SysEnd::ShutdownAfterBacktest => system.shutdown_after_backtest().await.map_err(|e| format!("{e:?}")),
+        }
+    };
+    let (engine, _ret) = match tokio::time::timeout(std::time::Duration::from_secs(600), joined).await {
+        Ok(r) => r?,
+        Err(_) => {
+            eprintln!("MACHINERY: C10 system layer: engine task not finished 600 s after the feed was closed");
+            std::process::exit(2);
+        }
+    };
+    let mut rx = audit.updates;
+    let ticks = drain(&mut rx);
+    Ok(RunObs { snapshot: audit.snapshot, state_before, ticks, final_state: engine.st().clone(), completed: true })
+}
+
 /// System layer for one history: every feed mode x every admissible ending; S1-S4 (tie to the twin) plus
 /// R1/R2 at the end of the stream for a replica built from the system's own snapshot + updates.
-fn check_system(w: &World, hist: &[Sym], c: &mut Counters) -> Vec<(String, String, Value)> {
+fn check_system(w: &World, hist: &[Sym], c: &mut Counters, origin: Origin) -> Vec<(String, String, Value)> {
     let mut res = Vec::new();
     let events: Vec<Event> = hist.iter().map(|s| w.event(s)).collect();
-    let Ok(plain) = guarded(|| run_twin(w, &events)) else {
-        return res; // reported by the history layers
+    // the stepped twin is made the same way as the system's engine
+    let twin_of = |evs: &[Event]| match origin {
+        Origin::New => guarded(|| run_twin(w, evs)),
+        Origin::Builder => guarded(|| run_twin_on(w.built_system(EngineFeedMode::Iterator).engine, evs)),
+    };
+    let Ok(plain) = twin_of(&events) else {
+        if origin == Origin::Builder {
+            res.push(("C10/stream/stepped-engine-panicked".into(), "process_with_audit panicked (engine made by SystemBuilder)".into(), json!({"layer": "builder"})));
+        }
+        return res; // (Origin::New: reported by the history layers)
     };
     // `System::shutdown*` insist on a live engine: only used when the history itself does not end the run
     let open_ended = matches!(plain.ticks.last().map(|t| &t.event), Some(EngineAudit::FeedEnded));
     let mut with_shutdown = events.clone();
     with_shutdown.push(Event::from(Shutdown));
-    let twin_shutdown = if open_ended { guarded(|| run_twin(w, &with_shutdown)).ok() } else { None };
+    let twin_shutdown = if open_ended { twin_of(&with_shutdown).ok() } else { None };
     let mut hist_shutdown = hist.to_vec();
     hist_shutdown.push(Sym::Shutdown);
     for mode in [EngineFeedMode::Iterator, EngineFeedMode::Stream] {
-        let name = feed_mode_name(&mode);
+        let name = feed_mode_name(origin, &mode);
         for end in [SysEnd::FeedClosed, SysEnd::Shutdown, SysEnd::ShutdownAfterBacktest] {
             if end != SysEnd::FeedClosed && twin_shutdown.is_none() {
                 continue;
             }
-            let wh = json!({"layer": "system", "mode": name, "end": end});
-            c.system_runs += 1;
-            let obs = match guarded(|| run_system(w, &events, mode.clone(), end)) {
+            let wh = json!({"layer": if origin == Origin::New { "system" } else { "builder" }, "mode": name, "end": end});
+            if origin == Origin::New { c.system_runs += 1 } else { c.builder_runs += 1 }
+            let obs = match guarded(|| run_system(w, &events, mode.clone(), end, origin)) {
                 Ok(Ok(o)) => o,
+                Ok(Err(e)) if e.starts_with(NO_AUDIT) => {
+                    res.push((format!("C10/stream/{name}/no-audit-stream-although-auditing-enabled"), format!("a system configured with auditing enabled emits no audit records at all: {e}"), wh));
+                    continue;
+                }
                 Ok(Err(e)) => {
                     res.push((format!("C10/stream/{name}/engine-task-failed"), format!("the system did not hand back its engine / audit stream: {e}"), wh));
                     continue;
@@ -1705,30 +1829,114 @@ fn check_system(w: &World, hist: &[Sym], c: &mut Counters) -> Vec<(String, Strin
     res
 }
 
-/// All histories of length <= max_len over `base` in world `widx` through the system layer.
-fn explore_system(sh: &Shared, widx: usize, w: &World, base: &[Sym], max_len: usize) {
-    let mut hists: Vec<Vec<Sym>> = vec![vec![]];
-    let mut level: Vec<Vec<Sym>> = vec![vec![]];
-    for _ in 0..max_len {
-        let mut next = Vec::new();
-        for h in &level {
-            for s in alphabet(w, base, h) {
-                let mut n = h.clone();
-                n.push(s);
-                next.push(n);
+/// All histories of length <= max_len over `base` through the system layer, for every (world, origin) of
+/// `jobs` (one flat parallel sweep: a system run mostly waits for thread hand-overs).
+fn explore_system(sh: &Shared, jobs: &[(usize, &World, Origin)], base: &[Sym], max_len: usize) {
+    let mut items: Vec<(usize, &World, Origin, Vec<Sym>)> = Vec::new();
+    for (widx, w, origin) in jobs {
+        let mut level: Vec<Vec<Sym>> = vec![vec![]];
+        items.push((*widx, *w, *origin, vec![]));
+        for _ in 0..max_len {
+            let mut next = Vec::new();
+            for h in &level {
+                for s in alphabet(w, base, h) {
+                    let mut n = h.clone();
+                    n.push(s);
+                    next.push(n);
+                }
             }
+            items.extend(next.iter().map(|h| (*widx, *w, *origin, h.clone())));
+            level = next;
         }
-        hists.extend(next.iter().cloned());
-        level = next;
     }
-    hists.into_par_iter().for_each(|h| {
+    items.into_par_iter().for_each(|(widx, w, origin, h)| {
         let mut c = Counters::default();
-        let viols = check_system(w, &h, &mut c);
+        let viols = check_system(w, &h, &mut c, origin);
         if !viols.is_empty() {
             report(sh, widx, w, &h, viols);
         }
         add(&mut sh.counters.lock().unwrap(), &c);
     });
+}
+
+// ------------------------------------------------------------------------------------------------
+// Long-run layer: count-dependent behaviour (a record lost / repeated / renumbered only after many
+// events, sequence numbers crossing 2^32) is out of reach of histories of length <= 5
+// ------------------------------------------------------------------------------------------------
+
+/// A long deterministic history: at position i the symbol number (a*i + b) mod |allowed| of the symbols
+/// the alphabet allows there (a coprime to the alphabet sizes => every symbol keeps recurring); `Shutdown`
+/// is left out so that the run goes on (a fatal error would end it early, which is a valid, shorter run).
+fn long_history(w: &World, base: &[Sym], len: usize, a: usize, b: usize) -> Vec<Sym> {
+    let mut h: Vec<Sym> = Vec::with_capacity(len);
+    let mut bits = [false, false];
+    while h.len() < len {
+        let allowed: Vec<Sym> = alphabet_bits(w, base, bits).into_iter().filter(|s| *s != Sym::Shutdown).collect();
+        let s = allowed[(a * h.len() + b) % allowed.len()];
+        bits = [bits[0] || s.may_track(0), bits[1] || s.may_track(1)];
+        h.push(s);
+    }
+    h
+}
+
+const LONG_PATTERNS: [(usize, usize); 4] = [(7, 3), (11, 5), (5, 0), (17, 9)];
+
+/// Faults of a long stream: everywhere up to this length, beyond it only at the tail.
+const LONG_ALL_FAULTS_UPTO: usize = 400;
+
+/// For every pattern: the whole history through everything `check_history` does (both runners, canonical
+/// async schedules, the replica after every record, fault streams) and through the system layer; and
+/// EVERY shorter length n (the first n events) through both runners (S1-S4 against a stepped twin), so
+/// that a final record lost or doubled at particular lengths is seen as well.
+fn explore_long(sh: &Shared, widx: usize, w: &World, base: &[Sym], len: usize, patterns: usize) {
+    for (a, b) in LONG_PATTERNS.iter().take(patterns) {
+        let hist = long_history(w, base, len, *a, *b);
+        let mut c = Counters::default();
+        let mut oh = Some(0u64);
+        let faults = if hist.len() <= LONG_ALL_FAULTS_UPTO { FaultMode::All } else { FaultMode::Tail };
+        let mut viols = check_history(w, &hist, SchedMode::Canonical, faults, &mut c, &mut oh);
+        viols.extend(check_system(w, &hist, &mut c, Origin::New));
+        c.long_histories += 1;
+        c.long_max_len = c.long_max_len.max(hist.len() as u64);
+        let mut local = HashSet::new();
+        local.insert(oh.unwrap());
+        sh.distinct.merge_local(&local);
+        report(sh, widx, w, &hist, viols);
+        add(&mut sh.counters.lock().unwrap(), &c);
+        (1..hist.len()).into_par_iter().for_each(|n| {
+            let h = &hist[..n];
+            let events: Vec<Event> = h.iter().map(|s| w.event(s)).collect();
+            let mut c = Counters::default();
+            let mut res: Vec<(String, String, Value)> = Vec::new();
+            let Ok(twin) = guarded(|| run_twin(w, &events)) else { return }; // reported by the full-length run
+            let mut v = Vec::new();
+            match guarded(|| run_sync(w, &events)) {
+                Ok(obs) => {
+                    c.sync_runs += 1;
+                    c.records_checked += obs.ticks.len() as u64;
+                    check_stream("sync", &obs, &events, h, &twin, &mut v);
+                    res.extend(v.drain(..).map(|(s, d)| (s, d, json!({"layer": "long-run/sync"}))));
+                }
+                Err(()) => res.push(("C10/stream/sync/runner-panicked".into(), "sync_run_with_audit panicked".into(), json!({"layer": "long-run/sync"}))),
+            }
+            for sch in canonical_schedules(n) {
+                match guarded(|| run_async(w, &events, sch)) {
+                    Ok(obs) => {
+                        c.async_runs += 1;
+                        c.records_checked += obs.ticks.len() as u64;
+                        check_stream("async", &obs, &events, h, &twin, &mut v);
+                        res.extend(v.drain(..).map(|(s, d)| (s, d, json!({"layer": "long-run/async", "schedule": sch}))));
+                    }
+                    Err(()) => res.push(("C10/stream/async/runner-panicked".into(), "async_run_with_audit panicked".into(), json!({"layer": "long-run/async", "schedule": sch}))),
+                }
+            }
+            c.long_prefix_lengths += 1;
+            if !res.is_empty() {
+                report(sh, widx, w, h, res);
+            }
+            add(&mut sh.counters.lock().unwrap(), &c);
+        });
+    }
 }
 
 // ------------------------------------------------------------------------------------------------
@@ -2051,9 +2259,32 @@ pub fn run(ctx: &Ctx) -> Outcome {
     }
     // system layer: short histories through the real SystemBuild::init (both feed modes, three endings)
     let system_len = ctx.tier.pick(1, 2);
-    for (i, w) in ws.iter().enumerate() {
-        explore_system(&sh, i, w, &full, system_len);
+    // (diagnostic switch, used to show that a layer is what detects a given change: C10_DISABLE=builder,long)
+    let disabled = std::env::var("C10_DISABLE").unwrap_or_default();
+    if !disabled.is_empty() {
+        eprintln!("C10: layers disabled for diagnosis: {disabled} - this run is not evidence");
     }
+    let t_sys = std::time::Instant::now();
+    let mut jobs: Vec<(usize, &World, Origin)> = ws.iter().enumerate().map(|(i, w)| (i, w, Origin::New)).collect();
+    // builder layer: the same through the real SystemBuilder (which makes the engine itself: no links, sequence 0 -
+    // only the strategy and the initial trading state of a world matter, so worlds 0 and 1 are all there is)
+    if !disabled.contains("builder") {
+        jobs.extend(ws.iter().enumerate().take(2).map(|(i, w)| (i, w, Origin::Builder)));
+    }
+    explore_system(&sh, &jobs, &full, system_len);
+    let t_sys = t_sys.elapsed();
+    let t_long = std::time::Instant::now();
+    // long-run layer (healthy links: nothing ends the run early)
+    let long_len = ctx.tier.pick(320, 1000);
+    let long_patterns = ctx.tier.pick(2, 3);
+    let long_world = World::new(worlds().into_iter().nth(LONG_WORLD).expect("long-run world"));
+    for (i, w) in [(0usize, &ws[0]), (LONG_WORLD, &long_world)] {
+        if disabled.contains("long") {
+            break;
+        }
+        explore_long(&sh, i, w, &full, long_len, long_patterns);
+    }
+    let t_long = t_long.elapsed();
     // secondary layer: deeper, with state de-duplication, engine x replica only (no runners)
     let bfs_depth = ctx.tier.pick(4, 6);
     let bfs_cap = ctx.tier.pick(200_000, 2_000_000);
@@ -2068,7 +2299,12 @@ pub fn run(ctx: &Ctx) -> Outcome {
     }
     let c = sh.counters.lock().unwrap().clone();
     if std::env::var("C10_PROFILE").is_ok() {
+        eprintln!("C10 wall ms: system+builder layers {}, long-run layer {}", t_sys.as_millis(), t_long.as_millis());
         eprintln!("C10 cpu ms by phase [sync(+twin), async, bookkeeping+hash, replica in-order, faults]: {:?}", c.ns.iter().map(|n| n / 1_000_000).collect::<Vec<_>>());
+    }
+    let mut diagnostic: Vec<String> = Vec::new();
+    if !disabled.is_empty() {
+        diagnostic.push(format!("DIAGNOSTIC RUN - NOT EVIDENCE: layers disabled through C10_DISABLE={disabled}"));
     }
     Outcome {
         level: "exploration",
@@ -2082,6 +2318,7 @@ pub fn run(ctx: &Ctx) -> Outcome {
                 "core_alphabet_symbols": core.len(), "core_alphabet_max_len": core_len,
                 "all_async_schedules_up_to_len": all_sched_upto, "worlds": ws.len(),
                 "system_layer_max_len": system_len,
+                "long_run_len": long_len, "long_run_patterns_per_world": long_patterns, "long_run_worlds": 2,
             },
             "per_world": per_world,
             "joint_state_bfs": {
@@ -2094,6 +2331,12 @@ pub fn run(ctx: &Ctx) -> Outcome {
             "async_runs": c.async_runs,
             "system_runs": c.system_runs,
             "system_layer": "every history of length <= system_layer_max_len (full alphabet, every world) through the real SystemBuild::new(engine, feed mode, AuditMode::Enabled, ..).init() in both feed modes, ended by closing the feed, System::shutdown() and System::shutdown_after_backtest(); the system's snapshot + updates checked by S1-S4 against the stepped engine and by a replica run() over the whole stream",
+            "builder_runs": c.builder_runs,
+            "builder_layer": "every history of length <= system_layer_max_len (full alphabet; quiet/trading-off and active/trading-on strategy) through SystemBuilder::new(SystemArgs{..}).engine_feed_mode(..).audit_mode(Enabled).trading_state(..).build().init() in both feed modes with the three endings; stepped twin = the engine of a second build(); same rules as the system layer",
+            "long_run_layer": {
+                "rule": "per world and pattern one deterministic history of long_run_len events cycling through the alphabet (no Shutdown): the whole history through both runners (canonical async schedules), the replica after every record, fault streams and the system layer; every shorter length 1..long_run_len through both runners (S1-S4); one world starts at sequence 2^32-40",
+                "histories": c.long_histories, "max_len": c.long_max_len, "shorter_lengths_run": c.long_prefix_lengths,
+            },
             "records_checked": c.records_checked,
             "replica_steps_in_order": c.replica_steps,
             "fault_streams": c.fault_streams,
@@ -2117,9 +2360,11 @@ pub fn run(ctx: &Ctx) -> Outcome {
             "instrument data is DefaultInstrumentMarketData and global data DefaultGlobalData (no user state that records in-flight requests)".into(),
             "strategies: one that never issues orders and one deterministic state-driven strategy issuing/cancelling two orders; on_disconnect/on_trading_disabled hooks do not mutate engine state (the negative control does and is reported)".into(),
             "2 exchanges, 3 instruments, 2 order templates; histories bounded as stated under bounds".into(),
+            "builder layer: SystemArgs without execution configuration (every exchange tracked without execution link: order requests end the run with a fatal-error record)".into(),
+            "long-run layer: fixed cyclic histories (not all histories of that length); the order report of an order is never followed by a new request for the same client order id".into(),
             "after a Shutdown event only one further feed event is appended (it must stay unprocessed)".into(),
             "system layer: the system is built with SystemBuild::new around the scripted engine, without execution components (empty ExecutionBuildFutures), an empty market stream and an unused account channel; every event enters through System::feed_tx; System::shutdown*() may end the run with a shutdown or a feed-ended record (both accepted)".into(),
-        ],
+        ].into_iter().chain(diagnostic).collect(),
     }
 }
 
@@ -2136,13 +2381,23 @@ pub fn replay(ctx: &Ctx, case: &Value) {
     println!("replay world={} hist={hist:?}", w.spec.name);
     let mut c = Counters::default();
     let mut oh = None;
-    let viols = check_history(&w, &hist, SchedMode::All, FaultMode::All, &mut c, &mut oh);
+    // (a history of the long-run layer: canonical schedules only - there are 2^(n-1) schedules)
+    let long = hist.len() > 8;
+    let viols = check_history(
+        &w, &hist,
+        if long { SchedMode::Canonical } else { SchedMode::All },
+        if long && hist.len() > LONG_ALL_FAULTS_UPTO { FaultMode::Tail } else { FaultMode::All },
+        &mut c, &mut oh,
+    );
     println!(
         "replay: {} sync run, {} async runs, {} records, {} replica steps, {} fault streams -> {} violation(s)",
         c.sync_runs, c.async_runs, c.records_checked, c.replica_steps, c.fault_streams, viols.len()
     );
-    let sys = check_system(&w, &hist, &mut c);
-    println!("replay: {} system runs -> {} violation(s)", c.system_runs, sys.len());
+    let mut sys = check_system(&w, &hist, &mut c, Origin::New);
+    if case["where"]["layer"].as_str() == Some("builder") {
+        sys.extend(check_system(&w, &hist, &mut c, Origin::Builder));
+    }
+    println!("replay: {} system runs, {} builder runs -> {} violation(s)", c.system_runs, c.builder_runs, sys.len());
     for (sig, detail, extra) in viols.into_iter().chain(sys) {
         println!("    {sig}: {detail}");
         ctx.violate(sig, detail, case_of(widx, &w, &hist, &extra));
